@@ -1,5 +1,7 @@
 """Property id -> check specification."""
+import checks_comp
 import checks_sim
 
 SPECS = {}
 SPECS.update(checks_sim.SPECS)
+SPECS.update(checks_comp.SPECS)
